@@ -500,4 +500,65 @@ example : wf (.arr [] [.int [45] [48, 55] [], .name [.raw 65, .esc 50 48] [], .s
   all_goals intro _ _ rest
   all_goals simp [bytesList, bytesOf, isDW, isGapByte, endsReg] at *
 
+/-! ### the second sentence of the property, for EVERY byte string (no `_partial`)
+
+"The result does not depend on where the reader's buffer boundaries fall or on the object's absolute
+offset in the file."  These statements do not say WHICH value is read, so they hold for every input —
+conformant or damaged, odd hexadecimal strings included. -/
+
+theorem tokVals_shift (k : Nat) (ts : List PTok) : tokVals (shiftToks k ts) = tokVals ts := by
+  simp [tokVals, shiftToks]
+
+theorem objects_tokVals (ts ts' : List PTok) (h : tokVals ts = tokVals ts') : objects ts = objects ts' := by
+  unfold objects; simp only [tokVals] at h; rw [h]
+
+/-- Buffer boundaries: the objects read do not depend on the read-buffer size, on any input. -/
+theorem C01_bufsize_indep (b₁ b₂ : Nat) (h₁ : 1 ≤ b₁) (h₂ : 1 ≤ b₂) (data : Bytes) :
+    (run b₁ data).map objects = (run b₂ data).map objects := by
+  rw [C14.C14_bufsize_indep b₁ b₂ h₁ h₂ data]
+
+/-- Offset: a prefix that holds no token and leaves the lexer in its main scanner (white space, complete
+    comments) changes nothing but the token positions, which the stack parser does not look at: the
+    objects read from `pre ++ data` are those read from `data`, for EVERY `data` and buffer size. -/
+theorem C01_offset_indep (b : Nat) (hb : 1 ≤ b) (pre data : Bytes) (hm : modeAfter pre = .main)
+    (hno : specLex pre = []) : (run b (pre ++ data)).map objects = (run b data).map objects := by
+  rw [C14.C14_run_eq_spec b hb, C14.C14_run_eq_spec b hb, Option.map_some, Option.map_some,
+    C14.C14_compositional_main pre data hm, hno, List.nil_append]
+  exact congrArg some (objects_tokVals _ _ (tokVals_shift _ _))
+
+/-- … in particular behind any run of white-space bytes (every byte of the regenerated SPC table). -/
+theorem C01_offset_indep_ws (b : Nat) (hb : 1 ≤ b) (pad data : Bytes) (hws : ∀ c ∈ pad, isSPC c = true) :
+    (run b (pad ++ data)).map objects = (run b data).map objects := by
+  have h := main_skip_all pad St.init 0 rfl hws
+  refine C01_offset_indep b hb pad data h.2 ?_
+  unfold specLex
+  rw [foldBytes_append, h.1]
+  have := fun p => main_nl (foldBytes St.init pad 0).1 p h.2
+  simp [foldBytes, this]
+
+/-- Splitting (content streams, C05): when `a` ends in a complete token, the stack parser fed with the
+    tokens of `a ++ ws ++ b` is in the state reached by feeding the tokens of `a` and then those of `b` —
+    operands left on the stack by `a` are seen by `b`. -/
+theorem C01_concat_feed (a ws b : Bytes) (hc : Complete (modeAfter a) = true) (hne : ws ≠ [])
+    (hws : ∀ c ∈ ws, isSPC c = true) :
+    feedAll {} (tokVals (specLex (a ++ ws ++ b))) = feedAll (feedAll {} (tokVals (specLex a))) (tokVals (specLex b)) := by
+  rw [C14.C14_compositional a ws b hc hne hws]
+  have h : tokVals (concatLex a ws b) = tokVals (specLex a) ++ tokVals (specLex b) := by
+    unfold concatLex
+    rw [show ∀ x y : List PTok, tokVals (x ++ y) = tokVals x ++ tokVals y from fun x y => List.map_append,
+      tokVals_shift]
+  rw [h]
+  simp [feedAll, feedAllWith, List.foldl_append]
+
+/-- Non-vacuity: a damaged input (odd hex string, unbalanced bracket) behind NUL / CR / a comment. -/
+example : modeAfter [0, 13, 37, 99, 10, 32] = .main ∧ specLex [0, 13, 37, 99, 10, 32] = [] ∧
+    showState (objects (specLex ([0, 13, 37, 99, 10, 32] ++ [60, 50, 62, 93, 49])))
+      = showState (objects (specLex [60, 50, 62, 93, 49])) ∧
+    showState (objects (specLex [60, 50, 62, 93, 49])) ≠ showState {} := by decide +kernel
+example : Complete (modeAfter [49, 32, 50]) = true ∧
+    showState (feedAll {} (tokVals (specLex ([49, 32, 50] ++ [10] ++ [82]))))
+      = showState (feedAll (feedAll {} (tokVals (specLex [49, 32, 50]))) (tokVals (specLex [82]))) ∧
+    showState (feedAll {} (tokVals (specLex ([49, 32, 50] ++ [10] ++ [82])))) ≠
+      showState (feedAll {} (tokVals (specLex [49, 32, 50]))) := by decide +kernel
+
 end PdfVerif.Props.C01
